@@ -263,7 +263,7 @@ func c15(r *rt.Run) {
 			if ps.pool.Name == "R" || ps.pool.Name == "B" {
 				stride = 2
 			}
-			if ps.pool.Name == "L" || ps.pool.Name == "M" {
+			if ps.pool.Name == "L" || ps.pool.Name == "M" || ps.pool.Name == "S" {
 				stride = 1
 			}
 		}
@@ -271,7 +271,7 @@ func c15(r *rt.Run) {
 			c15Case(r, src, ps.pool.EDBs[ei], (i+ei)%4 == 0)
 		}
 	})
-	r.Finish("every <=k-rule program of pools G,R,N,M,L,B x pool EDBs (quick: every 2nd-5th EDB); after evaluation EVERY stored fact is a goal for provenance.Explain (MaxProofs 1 and 3; MaxDepth default and, for a quarter of the cases, 2) and for BuildFromRecording; " +
+	r.Finish("every <=k-rule program of pools G,R,N,M,L,S,B x pool EDBs (quick: every 2nd-5th EDB); after evaluation EVERY stored fact is a goal for provenance.Explain (MaxProofs 1 and 3; MaxDepth default and, for a quarter of the cases, 2) and for BuildFromRecording; " +
 		"each proof is validated by an independent checker; recorder on/off store equality; identifier/content bijection per run; non-trivial = cases with at least one derived fact")
 }
 
